@@ -10,7 +10,7 @@ Case   {"cfg": {"writer": "blocking"|"awaitable", "hook": "default"|"quiet"|"rai
         last two go through feature_manager.wrap_with_server; not seen by the model)}
 Event  ["recv", frame] | ["task", t] | ["cb", t] | ["jstart", j] | ["jfin", j] | ["write"] |
        ["exitcb"] | ["send", id] | ["scancel", id] | ["ocancel", o]
-         (the last two are Model/EndpointX.v's ServerCancel i = cancel() on _request_futures[i] without
+         (the last two are Model/EndpointX.v's ServerCancel i = cancel() on the in-flight future i without
           popping it, and OutCancel o = the caller cancels the o-th future send_request returned)
          t / j = index of the handler task / pool work item in creation order
 Frame  {"t": "garbage", "v": 0..5}
@@ -31,7 +31,7 @@ Observation after every event (`observe`):
    "hlog":  new handler-log entries [who, part, phase, site]; who = ["req", id] | ["not", tag];
             part = "builtin"|"user"|"command"; phase = "start"|"end"|"cancel"; site = "loop"|"pool",
    "errs":  new report_server_error calls, by source class: "request"|"notification"|"jsonrpc"|"internal",
-   "futs": key list of _request_futures, "rtypes": key list of _result_types,
+   "futs": key list of the in-flight futures table, "rtypes": key list of the result-type table,
    "shutdown": bool, "exit": None | status, "closed": bool, "storm": bool, "alive": bool,
    "quiescent": no handler task, queued callback, pool item or awaitable write is left}
 
@@ -40,7 +40,7 @@ Technique (DESIGN.md Appendix E): a private event loop whose task factory builds
 everything in `loop._ready` is moved into harness-owned pending tables ("ready-queue
 interposition"); an event re-injects exactly one handle and runs one loop iteration.  The read
 loop is the real `pygls.io_.run_async` over a real `asyncio.StreamReader`.  The pool is a duck-typed
-object on `server._thread_pool`; work items run on real non-loop threads up to a harness gate.
+object installed with priv.set_thread_pool; work items run on real non-loop threads up to a harness gate.
 """
 import asyncio
 import concurrent.futures
@@ -50,6 +50,8 @@ import logging
 import threading
 import warnings
 import weakref
+
+import priv
 
 logging.disable(logging.CRITICAL)
 warnings.simplefilter("ignore")
@@ -67,6 +69,12 @@ BUILTIN_FAIL = "textDocument/didClose"
 
 class HarnessError(Exception):
     pass
+
+
+# what a Sched reaches of pygls' private state (keys of harness/priv.py; the properties built on this
+# module list them in `Property.private`, core resolves them before a case runs)
+PRIVATE = ["protocol.request_futures", "protocol.result_types", "protocol.shutdown_flag",
+           "server.thread_pool", "server.error_handler"]
 
 
 class _Sentinel:
@@ -243,7 +251,7 @@ class _Job:
 
 
 class _Pool:
-    """Duck-typed executor assigned to server._thread_pool."""
+    """Duck-typed executor installed as the server's pool (priv.set_thread_pool)."""
     def __init__(self, sched):
         self.s = sched
 
@@ -311,29 +319,29 @@ class Sched:
 
         self.server = Server("sched", "v1", **(server_kwargs or {}))      # e.g. protocol_cls= (C14)
         self.protocol = self.server.protocol
-        self.server._thread_pool = _Pool(self)
+        priv.set_thread_pool(self.server, _Pool(self))
         self._register(chained or {})
         self.writer = _BlockingWriter(self) if cfg["writer"] == "blocking" else _AwaitableWriter(self)
         self.protocol.set_writer(self.writer)
         self.stop_event = threading.Event()
         asyncio.set_event_loop(None)
         self.reader = asyncio.StreamReader(loop=self.loop)
-        handler = (self.server._report_server_error if error_handler == "protected"
+        handler = (priv.error_handler(self.server) if error_handler == "protected"
                    else self.server.report_server_error)
         self.reader_task = self.loop.create_task(
             run_async(self.stop_event, self.reader, self.protocol, error_handler=handler))
         self._collect()
         self._run_reader()
 
-    # ---- accessors for the two private tables (a rename is a one-line fix here)
+    # ---- the two private tables and the shutdown flag (located by harness/priv.py)
     def table_futs(self):
-        return list(self.protocol._request_futures.keys())
+        return list(priv.request_futures(self.protocol).keys())
 
     def table_rtypes(self):
-        return list(self.protocol._result_types.keys())
+        return list(priv.result_types(self.protocol).keys())
 
     def flag_shutdown(self):
-        return bool(self.protocol._shutdown)
+        return priv.shutdown_flag(self.protocol)
 
     # ---- handlers
     def _register(self, chained):
@@ -671,7 +679,7 @@ class Sched:
         """Server-side cancellation: cancel() on the future stored under key i, WITHOUT popping it
         (what lsp_shutdown does to every entry, applied to one)."""
         def go():
-            fut = self.protocol._request_futures.get(i)
+            fut = priv.request_futures(self.protocol).get(i)
             if fut is not None:
                 fut.cancel()
         h = self.loop.call_soon(go)
